@@ -13,7 +13,8 @@
 //	div        x / y, x % y (and /=, %=) on integers with a non-constant divisor
 //	index      a[i] on a slice / array / string / pointer to array (not a map), a[i:j] with at least one bound
 //	assert     x.(T) without the comma-ok form (type switches excluded)
-//	lib        call of a library function known to panic on some arguments (fixed list below)
+//	lib        call of a library function known to panic on some arguments (fixed list below); KV-store Get / Has /
+//	           Delete / Set with a non-empty constant key (and a []byte(string) value) are not sites
 //	nilrecv    method call whose receiver is the result of a Get*/Unpack* call that returns an interface or pointer
 //
 // Every site is identified by (file, function, kind, go/printer text of the expression, occurrences).
@@ -30,6 +31,7 @@ import (
 	"fmt"
 	"go/ast"
 	"go/build"
+	"go/constant"
 	"go/importer"
 	"go/parser"
 	"go/printer"
@@ -44,7 +46,7 @@ import (
 	"strings"
 )
 
-const version = "panicsites-v5"
+const version = "panicsites-v6"
 
 // packages (directories) whose functions take part in the call graph
 var scopeDirs = []string{
@@ -644,6 +646,12 @@ func (w *walker) call(c *ast.CallExpr) {
 	}
 	if callee != nil {
 		if matchLib(callee) {
+			if w.constKeyStoreOp(c, name) {
+				// Get / Has / Delete of a KV store panic only on a nil or empty key, Set also on a nil value: with a
+				// non-empty CONSTANT key (and a []byte(..) conversion as value, which is never nil) the call cannot
+				// panic - not a site (a getter such as Keeper.GetChainName adds nothing to the inventory)
+				return
+			}
 			w.add("lib", c)
 			return
 		}
@@ -679,6 +687,57 @@ func (w *walker) call(c *ast.CallExpr) {
 			}
 		}
 	}
+}
+
+// isByteSliceConv: e is a conversion []byte(x); returns x
+func (w *walker) isByteSliceConv(e ast.Expr) (ast.Expr, bool) {
+	c, ok := e.(*ast.CallExpr)
+	if !ok || len(c.Args) != 1 {
+		return nil, false
+	}
+	tv, ok := w.info.Types[c.Fun]
+	if !ok || !tv.IsType() {
+		return nil, false
+	}
+	sl, ok := tv.Type.Underlying().(*types.Slice)
+	if !ok {
+		return nil, false
+	}
+	b, ok := sl.Elem().Underlying().(*types.Basic)
+	if !ok || b.Kind() != types.Uint8 {
+		return nil, false
+	}
+	return c.Args[0], true
+}
+
+func (w *walker) constKeyStoreOp(c *ast.CallExpr, name string) bool {
+	if name != "Get" && name != "Has" && name != "Delete" && name != "Set" {
+		return false
+	}
+	if len(c.Args) == 0 {
+		return false
+	}
+	x, ok := w.isByteSliceConv(c.Args[0])
+	if !ok {
+		return false
+	}
+	tv, ok := w.info.Types[x]
+	if !ok || tv.Value == nil || tv.Value.Kind() != constant.String || constant.StringVal(tv.Value) == "" {
+		return false
+	}
+	if name == "Set" {
+		if len(c.Args) != 2 {
+			return false
+		}
+		v, ok := w.isByteSliceConv(c.Args[1])
+		if !ok {
+			return false
+		}
+		if b, isB := w.info.Types[v].Type.Underlying().(*types.Basic); !isB || b.Info()&types.IsString == 0 {
+			return false // []byte(nilSlice) would be nil
+		}
+	}
+	return true
 }
 
 func q(s string) string {
